@@ -385,6 +385,9 @@ func methodScenario(envName string, t *ot.Target, ri int, tier string) engine.Sc
 		kind := &row.Kinds[ki]
 		k := &call{c: c, e: e, t: t, row: row, kind: kind, name: name, refs: map[string]*obs{}}
 		class := kind.Class
+		if kind.ClassOf != nil {
+			class = kind.ClassOf(e)
+		}
 		if class == "" {
 			class = kind.Name
 		}
@@ -435,6 +438,10 @@ func methodScenario(envName string, t *ot.Target, ri int, tier string) engine.Sc
 			return
 		}
 		c.Cover("ok", t.Name+"."+row.Method)
+		if nonZero(ref.parts) {
+			// vacuity guard: a row whose reference result is identically zero compares zeros with zeros
+			c.Cover("nonzero-result", t.Name+"."+row.Method)
+		}
 
 		o := k.measure(pat, sh, h)
 		if o.skip != "" {
@@ -547,4 +554,19 @@ func describeDiff(ref, got interface{}) string {
 		return "(same raw value)"
 	}
 	return "first difference at " + ot.Locate(false, d, []string{"result"}, got)
+}
+
+// nonZero reports whether the "value" part of a result contains a non-zero byte.
+func nonZero(parts []ot.Part) bool {
+	for _, p := range parts {
+		if p.Name != "value" {
+			continue
+		}
+		for _, b := range p.B {
+			if b != 0 && b != 0xEE && b != 0xEF {
+				return true
+			}
+		}
+	}
+	return false
 }
